@@ -39,9 +39,17 @@ func pendingTable() rule {
 	}
 }
 
+// lazilyLoaded: see lazily_loaded in SodPolicy.v.
+func lazilyLoaded() rule {
+	return rule{
+		rd: [][]req{{{lHandle, 'R'}, {lSchemas, 'R'}}, {{lHandle, 'W'}}},
+		wr: [][]req{{{lHandle, 'R'}, {lSchemas, 'W'}}, {{lHandle, 'W'}}},
+	}
+}
+
 var sodPolicy = []policyEntry{
 	// the handle
-	{"DB.schemas", byHandle()},
+	{"DB.schemas", lazilyLoaded()},
 	{"DB.ctx", immutable()}, {"DB.cancel", immutable()}, {"DB.root", immutable()},
 	{"DB.cache", immutable()}, {"DB.asyncw", immutable()},
 	// schemas
@@ -50,7 +58,7 @@ var sodPolicy = []policyEntry{
 	{"Schema.Extension", byHandle()}, {"Schema.Compress", byHandle()},
 	{"Schema.Cache", byHandle()}, {"Schema.AsyncWrites", byHandle()},
 	{"Schema.ObjectIndex", byHandle()},
-	{"Async.routineStarted", byHandle()}, {"Async.Enable", byHandle()},
+	{"Async.routineStarted", lazilyLoaded()}, {"Async.Enable", byHandle()},
 	{"Async.Threshold", byHandle()}, {"Async.Timeout", byHandle()},
 	// the live index
 	{"objIndex.i", byHandle()}, {"objIndex.uuids", byHandle()},
